@@ -52,10 +52,12 @@ InitState(dbInit) ==
 \* a step/event record: every field always present
 E0 == [act |-> "none", b |-> NONE, pid |-> NONE, pw |-> 0, tok |-> 0, rm |-> FALSE,
        valid |-> TRUE, d |-> 0, method |-> NONE, code |-> 0, rc |-> 0, g |-> 0, kind |-> NONE,
-       prov |-> NONE, outcome |-> NONE, phone |-> 0, redir |-> NONE, k |-> NONE]
+       prov |-> NONE, outcome |-> NONE, phone |-> 0, redir |-> NONE, k |-> NONE,
+       wf |-> FALSE,                    \* a rejected token is well formed enough to reach the storage lookup
+       fault |-> 0, faultE |-> NONE]    \* the fault-th backend call of this request fails (C18)
 
 R0 == [class |-> "none", loc |-> NONE, ran |-> FALSE, seenUser |-> NONE, seenKeys |-> {},
-       mails |-> {}, sms |-> {}, shown |-> {}, leaks |-> {}, calls |-> <<>>]
+       mails |-> {}, sms |-> {}, shown |-> {}, leaks |-> {}, calls |-> <<>>, faultHit |-> FALSE]
 
 \* declared secondary e-mail addresses (recovery mail also goes there); the
 \* harness seeds u2 with one
@@ -74,26 +76,53 @@ Locked(u, now) == u.lockedUntil >= now
 -----------------------------------------------------------------------------
 (* Handler context: the working copy a request operates on *)
 
-Ctx0(S, b) ==
-  [db |-> S.db, rm |-> S.rm, iss |-> S.iss, now |-> S.now, b |-> b, scPhone |-> S.scPhone,
-   rs |-> S.sess[b],      \* session as read at request start (stable reads)
-   rc |-> S.cookie[b],    \* cookie as read at request start
-   ps |-> S.sess[b],      \* session with queued changes applied
-   pc |-> S.cookie[b],    \* cookie with queued changes applied
+\* e.fault = n > 0: the n-th backend call of this request fails with e.faultE
+\* ("io": some error; "notfound" / "tokennotfound": the store's not-found errors)
+Ctx0(S, c, e) ==
+  [db |-> S.db, rm |-> S.rm, iss |-> S.iss, now |-> S.now, b |-> e.b, scPhone |-> S.scPhone,
+   rs |-> S.sess[e.b],    \* session as read at request start (stable reads)
+   rc |-> S.cookie[e.b],  \* cookie as read at request start
+   ps |-> S.sess[e.b],    \* session with queued changes applied
+   pc |-> S.cookie[e.b],  \* cookie with queued changes applied
    cu |-> NONE,           \* pid placed in the request context
+   loaded |-> NONE,       \* pid of the user object cached in the request context
+   json |-> c.json,
    class |-> "none", loc |-> NONE, ran |-> FALSE, seenUser |-> NONE, seenKeys |-> {},
-   mails |-> {}, sms |-> {}, shown |-> {}, err |-> FALSE,
+   mails |-> {}, sms |-> {}, shown |-> {},
+   calls |-> <<>>,        \* backend calls made so far: storage, hasher, renderers, mailer, SMS sender
+   fat |-> e.fault, fkind |-> e.faultE,
+   abort |-> NONE,        \* how the request stopped early: "err" | "silent" | "mw500" | "panic"
+   snap |-> <<>>,         \* the context at that moment
    pendLast |-> NEVER]    \* TOTP last-code carried by the in-memory user (not yet saved)
 
 Fresh(h, k)  == h.iss[k] + 1
 Bump(h, k)   == [h EXCEPT !.iss[k] = @ + 1]
 
+\* a backend call; Hit: it is the one that fails (it then has no effect of its own)
+Call(h, kind, key) == [h EXCEPT !.calls = Append(@, [kind |-> kind, key |-> key])]
+Hit(h)   == h.fat >= 1 /\ Len(h.calls) = h.fat
+HitNF(h) == Hit(h) /\ h.fkind \in {"notfound", "tokennotfound"}
+
+\* the request stops here; whatever the composition below still computes is discarded
+\*   "err"    a handler returned the error to ErrorHandler.Wrap
+\*   "silent" a middleware logged it and returned
+\*   "mw500"  authboss.Middleware2 answers 500 itself
+\*   "panic"  lock/confirm.Middleware used without a loadable user
+Abort(h, how) == IF h.abort # NONE THEN h ELSE [h EXCEPT !.abort = how, !.snap = <<[h EXCEPT !.abort = how]>>]
+Fail(h)       == Abort(h, "err")
+Final(h)      == IF h.abort = NONE THEN h ELSE h.snap[1]
+
 \* first response wins (a second WriteHeader changes nothing on the wire)
 Respond(h, class, loc) ==
   IF h.class # "none" THEN h ELSE [h EXCEPT !.class = class, !.loc = loc]
-Redirect(h, loc) == Respond(h, "redirect", loc)
-Page(h, name)    == Respond(h, "page", name)
-Fail(h)          == [h EXCEPT !.err = TRUE]
+\* every page goes through the view renderer; redirects do in API (JSON) mode only
+PageVia(h, name, how) ==
+  LET hc == Call(h, "Render", "-") IN IF Hit(hc) THEN Abort(hc, how) ELSE Respond(hc, "page", name)
+RedirectVia(h, loc, how) ==
+  IF ~h.json THEN Respond(h, "redirect", loc)
+  ELSE LET hc == Call(h, "Render", "-") IN IF Hit(hc) THEN Abort(hc, how) ELSE Respond(hc, "redirect", loc)
+Page(h, name)    == PageVia(h, name, "err")
+Redirect(h, loc) == RedirectVia(h, loc, "err")
 
 PutS(h, k, v) == [h EXCEPT !.ps[k] = v]
 DelS(h, k)    == [h EXCEPT !.ps[k] = EmptySess[k]]
@@ -104,6 +133,17 @@ CurrentUserID(h) == IF h.cu # NONE THEN h.cu ELSE h.rs.uid
 \* outcome of running handlers in sequence
 HR(h, handled) == [h |-> h, handled |-> handled]
 
+\* Storage.Save of the in-memory user u: a TOTP last-code it carries goes along
+SaveLast(h, u) == IF h.pendLast # NEVER THEN [h EXCEPT !.db[u].totpLast = h.pendLast] ELSE h
+
+\* authboss.Email: two templates, then the mailer; a failure is logged and the
+\* message is lost (the caller never learns)
+Mail(h, m) ==
+  LET h1 == Call(h, "RenderMail", "-") IN IF Hit(h1) THEN [h |-> h1, sent |-> FALSE] ELSE
+  LET h2 == Call(h1, "RenderMail", "-") IN IF Hit(h2) THEN [h |-> h2, sent |-> FALSE] ELSE
+  LET h3 == Call(h2, "SendMail", "-") IN IF Hit(h3) THEN [h |-> h3, sent |-> FALSE]
+  ELSE [h |-> [h3 EXCEPT !.mails = @ \cup {m}], sent |-> TRUE]
+
 -----------------------------------------------------------------------------
 (* lock module *)
 
@@ -113,35 +153,52 @@ LockUpdate(h, c, u, correct) ==
       inW == h.now - r.last <= c.lockWindow
       n   == IF correct THEN r.att ELSE IF inW THEN r.att + 1 ELSE 1
       lu  == IF ~correct /\ n >= c.lockAfter THEN h.now + c.lockDuration ELSE r.lockedUntil
-      h1  == [h EXCEPT !.db[u].att = n, !.db[u].last = h.now, !.db[u].lockedUntil = lu]
-  IN  IF Locked(h1.db[u], h.now) THEN HR(Redirect(h1, "lockNotOK"), TRUE) ELSE HR(h1, FALSE)
+      hc  == Call(h, "Save", u)
+      h1  == SaveLast([hc EXCEPT !.db[u].att = n, !.db[u].last = h.now, !.db[u].lockedUntil = lu], u)
+  IN  IF Hit(hc) THEN HR(Fail(hc), FALSE)
+      ELSE IF Locked(h1.db[u], h.now) THEN HR(Redirect(h1, "lockNotOK"), TRUE) ELSE HR(h1, FALSE)
 
-LockSuccess(h, u) == [h EXCEPT !.db[u].att = 0, !.db[u].last = h.now]
+LockSuccess(h, u) ==
+  LET hc == Call(h, "Save", u) IN
+  IF Hit(hc) THEN Fail(hc) ELSE SaveLast([hc EXCEPT !.db[u].att = 0, !.db[u].last = h.now], u)
 
 (* confirm module *)
 ConfirmPrevent(h, u) ==
   IF h.db[u].conf THEN HR(h, FALSE) ELSE HR(Redirect(h, "confirmNotOK"), TRUE)
 
-\* confirm.StartConfirmation: new token, unconfirmed, saved, mailed
+\* confirm.StartConfirmation: new token, unconfirmed, saved, mailed; a token
+\* whose mail is lost is stored but known to nobody (id -1)
 StartConfirmation(h, u) ==
-  LET t == Fresh(h, "ct") IN
-  [Bump(h, "ct") EXCEPT !.db[u].conf = FALSE, !.db[u].cTok = t,
-                        !.mails = @ \cup {[to |-> {u}, kind |-> "confirm", tok |-> t]}]
+  LET t  == Fresh(h, "ct")
+      hc == Call(h, "Save", u)
+  IN  IF Hit(hc) THEN Fail(hc)
+      ELSE LET m == Mail(hc, [to |-> {u}, kind |-> "confirm", tok |-> t]) IN
+           IF m.sent THEN [Bump(m.h, "ct") EXCEPT !.db[u].conf = FALSE, !.db[u].cTok = t]
+           ELSE [m.h EXCEPT !.db[u].conf = FALSE, !.db[u].cTok = -1]
 
 (* remember module *)
 RememberAdd(h, u) ==
-  LET t == Fresh(h, "rm") IN
-  [Bump(h, "rm") EXCEPT !.rm = @ \cup {[o |-> u, id |-> t]}, !.pc = t]
+  LET t  == Fresh(h, "rm")
+      hc == Call(h, "AddRememberToken", u)
+  IN  IF Hit(hc) THEN Fail(hc)
+      ELSE [Bump(hc, "rm") EXCEPT !.rm = @ \cup {[o |-> u, id |-> t]}, !.pc = t]
 
-\* remember.Authenticate, run by the middleware when nobody is logged in
+\* remember.Authenticate, run by the middleware when nobody is logged in.
+\* cookie -1: not even well formed (no storage call); -2: well formed, unknown
 RememberAuth(h) ==
   LET c == h.rc IN
   IF c = 0 THEN h
-  ELSE IF c < 0 \/ ~\E t \in h.rm : t.id = c THEN [h EXCEPT !.pc = 0]
-  ELSE LET t == CHOOSE t \in h.rm : t.id = c
-           n == Fresh(h, "rm")
-       IN  \* the rest of this request already sees the half-authenticated session
-           [Bump(h, "rm") EXCEPT !.rm = (@ \ {t}) \cup {[o |-> t.o, id |-> n]},
+  ELSE IF c = -1 THEN [h EXCEPT !.pc = 0]
+  ELSE LET hc == Call(h, "UseRememberToken", "-") IN
+       IF Hit(hc) /\ ~HitNF(hc) THEN hc                 \* logged; the request goes on anonymously
+       ELSE IF HitNF(hc) \/ ~\E t \in h.rm : t.id = c THEN [hc EXCEPT !.pc = 0]
+       ELSE LET t  == CHOOSE t \in h.rm : t.id = c
+                n  == Fresh(h, "rm")
+                h1 == [hc EXCEPT !.rm = @ \ {t}]          \* consumed
+                ha == Call(h1, "AddRememberToken", t.o)
+            IN  IF Hit(ha) THEN ha                       \* logged; consumed, nothing issued
+                ELSE \* the rest of this request already sees the half-authenticated session
+                     [Bump(ha, "rm") EXCEPT !.rm = @ \cup {[o |-> t.o, id |-> n]},
                                  !.cu = t.o, !.ps.uid = t.o, !.ps.half = TRUE, !.pc = n,
                                  !.rs.uid = t.o, !.rs.half = TRUE]
 
@@ -156,11 +213,11 @@ ExpireMW(h, c) ==
        ELSE PutS(h, "lastAct", h.now)
 
 -----------------------------------------------------------------------------
-(* Event dispatch: handler lists follow load order *)
+(* Event dispatch: handler lists follow load order; an error stops the chain *)
 
 RECURSIVE FireBeforeAuth(_, _, _, _, _)
 FireBeforeAuth(hs, h, c, u, handled) ==
-  IF hs = <<>> THEN HR(h, handled)
+  IF hs = <<>> \/ h.abort # NONE THEN HR(h, handled)
   ELSE LET r == IF Head(hs) = "lock" THEN LockUpdate(h, c, u, TRUE) ELSE ConfirmPrevent(h, u)
        IN  FireBeforeAuth(Tail(hs), r.h, c, u, handled \/ r.handled)
 
@@ -171,36 +228,46 @@ TotpHijack(h, u) ==
   IF h.db[u].totp = 0 THEN HR(h, FALSE)
   ELSE HR(Redirect(PutS(h, "totpPend", u), "totpValidate"), TRUE)
 
-\* sms2fa.SendCodeToUser; rate limit = no tick since the last send in this session
+\* sms2fa.SendCodeToUser; rate limit = no tick since the last send in this session.
+\* The session is written before the sender is called: a code that was not sent
+\* is known to nobody (id -1)
 SmsSend(h, phone) ==
   IF h.rs.smsLast # NEVER /\ h.now - h.rs.smsLast < 1
-  THEN [h |-> h, limited |-> TRUE]
+  THEN [h |-> h, limited |-> TRUE, failed |-> FALSE]
   ELSE LET t  == Fresh(h, "sc")
-           h1 == PutS(PutS(Bump(h, "sc"), "smsLast", h.now), "smsCode", t)
-       IN  [h |-> [h1 EXCEPT !.sms = @ \cup {[phone |-> phone, code |-> t]},
-                             !.scPhone = @ \cup {<<t, phone>>}], limited |-> FALSE]
+           hc == Call(PutS(h, "smsLast", h.now), "SendSMS", "-")
+       IN  IF Hit(hc) THEN [h |-> PutS(hc, "smsCode", -1), limited |-> FALSE, failed |-> TRUE]
+           ELSE [h |-> [PutS(Bump(hc, "sc"), "smsCode", t) EXCEPT !.sms = @ \cup {[phone |-> phone, code |-> t]},
+                             !.scPhone = @ \cup {<<t, phone>>}], limited |-> FALSE, failed |-> FALSE]
 
 SmsHijack(h, u) ==
   IF h.db[u].sms = 0 THEN HR(h, FALSE)
   ELSE LET h1 == PutS(h, "smsPend", u)
            s  == SmsSend(h1, h.db[u].sms)
-       IN  HR(Redirect(s.h, "smsValidate"), TRUE)
+       IN  IF s.failed THEN HR(Fail(s.h), FALSE) ELSE HR(Redirect(s.h, "smsValidate"), TRUE)
 
 RECURSIVE FireHijack(_, _, _, _)
 FireHijack(hs, h, u, handled) ==
-  IF hs = <<>> THEN HR(h, handled)
+  IF hs = <<>> \/ h.abort # NONE THEN HR(h, handled)
   ELSE LET r == IF handled THEN HR(h, FALSE)
                 ELSE IF Head(hs) = "totp" THEN TotpHijack(h, u) ELSE SmsHijack(h, u)
        IN  FireHijack(Tail(hs), r.h, u, handled \/ r.handled)
 
 Hijack(h, c, u) == FireHijack(Sub(c, {"totp", "sms"}), h, u, FALSE)
 
-\* After(EventAuth): remember (when asked), lock reset, expire stamp
+\* After(EventAuth): remember (when asked) and lock's reset in load order, then expire's stamp
+\* (expire is set up after the registered modules are initialised)
+RECURSIVE FireAfterAuth(_, _, _, _, _)
+FireAfterAuth(hs, h, c, u, wantRm) ==
+  IF hs = <<>> \/ h.abort # NONE THEN h
+  ELSE LET m  == Head(hs)
+           h1 == CASE m = "remember" -> IF wantRm THEN RememberAdd(h, u) ELSE h
+                   [] m = "lock"     -> LockSuccess(h, u)
+                   [] OTHER          -> PutS(h, "lastAct", h.now)
+       IN  FireAfterAuth(Tail(hs), h1, c, u, wantRm)
+
 AfterAuth(h, c, u, wantRm) ==
-  LET h1 == IF Has(c, "remember") /\ wantRm THEN RememberAdd(h, u) ELSE h
-      h2 == IF Has(c, "lock") THEN LockSuccess(h1, u) ELSE h1
-      h3 == IF Has(c, "expire") THEN PutS(h2, "lastAct", h.now) ELSE h2
-  IN  h3
+  FireAfterAuth(Sub(c, {"remember", "lock"}) \o (IF Has(c, "expire") THEN <<"expire">> ELSE <<>>), h, c, u, wantRm)
 
 \* After(EventAuthFail): lock counts the failure
 AfterAuthFail(h, c, u) ==
@@ -210,31 +277,42 @@ AfterAuthFail(h, c, u) ==
 \* (Before(Auth) -> Before(Hijack) -> session -> After(Auth) -> redirect)
 LoginTail(h, c, u, wantRm, delHalf, okLoc) ==
   LET a == BeforeAuth(h, c, u) IN
-  IF a.handled THEN a.h
+  IF a.handled \/ a.h.abort # NONE THEN a.h
   ELSE LET j == Hijack(a.h, c, u) IN
-       IF j.handled THEN j.h
+       IF j.handled \/ j.h.abort # NONE THEN j.h
        ELSE LET h1 == PutS(j.h, "uid", u)
                 h2 == IF delHalf THEN DelS(h1, "half") ELSE h1
                 h3 == AfterAuth(h2, c, u, wantRm)
-            IN  Redirect(h3, okLoc)
+            IN  IF h3.abort # NONE THEN h3 ELSE Redirect(h3, okLoc)
 
 -----------------------------------------------------------------------------
 (* Request handlers.  e is the event record. *)
 
 RouteMissing(h) == Respond(h, "notfound", NONE)
 
+\* Storage.Load(pid) as the first thing a handler does with a typed-in pid:
+\* [h, found]; any error but "not found" is returned
+LoadPid(h, pid) ==
+  LET hc == Call(h, "Load", "-") IN
+  IF Hit(hc) /\ ~HitNF(hc) THEN [h |-> Fail(hc), found |-> FALSE]
+  ELSE [h |-> hc, found |-> ~HitNF(hc) /\ pid \in Pids /\ h.db[pid].ex]
+
 LoginPost(h, c, e) ==
   IF ~Has(c, "auth") THEN RouteMissing(h)
-  ELSE IF e.pid \notin Pids \/ ~h.db[e.pid].ex THEN Page(h, "login")
-  ELSE LET u == e.pid IN
-       IF e.pw <= 0 \/ e.pw # h.db[u].pw
-       THEN LET f == AfterAuthFail(h, c, u) IN
-            IF f.handled THEN f.h ELSE Page(f.h, "login")
-       ELSE LoginTail(h, c, u, e.rm, TRUE, IF e.redir # NONE THEN "redir" ELSE "loginOK")
+  ELSE LET l == LoadPid(h, e.pid) IN
+       IF l.h.abort # NONE THEN l.h
+       ELSE IF ~l.found THEN Page(l.h, "login")
+       ELSE LET u == e.pid IN
+            IF e.pw <= 0 \/ e.pw # h.db[u].pw
+            THEN LET f == AfterAuthFail(l.h, c, u) IN
+                 IF f.handled \/ f.h.abort # NONE THEN f.h ELSE Page(f.h, "login")
+            ELSE LoginTail(l.h, c, u, e.rm, TRUE, IF e.redir # NONE THEN "redir" ELSE "loginOK")
 
+\* logout looks the user up only to log the name: whatever that returns is ignored
 Logout(h, c, e) ==
   IF ~Has(c, "logout") \/ e.method # c.logoutMethod THEN RouteMissing(h)
-  ELSE LET h1 == DelAllS(h, WL(c))
+  ELSE LET h0 == IF CurrentUserID(h) # NONE THEN Call(h, "Load", "-") ELSE h
+           h1 == DelAllS(h0, WL(c))
            h2 == DelS(DelS(DelS(h1, "uid"), "half"), "lastAct")
            h3 == [h2 EXCEPT !.pc = 0]
        IN  Redirect(h3, "logoutOK")
@@ -242,44 +320,72 @@ Logout(h, c, e) ==
 RegisterPost(h, c, e) ==
   IF ~Has(c, "register") THEN RouteMissing(h)
   ELSE IF ~e.valid THEN Page(h, "register")
-  ELSE LET u == e.pid IN
-       IF h.db[u].ex THEN Page(h, "register")
-       ELSE LET h1 == [h EXCEPT !.db[u] = [NoUser EXCEPT !.ex = TRUE, !.pw = e.pw]]
+  ELSE LET u  == e.pid
+           hh == Call(h, "Hash", "-")
+       IN
+       IF Hit(hh) THEN Fail(hh)
+       ELSE LET hc == Call(hh, "Create", u) IN
+       IF Hit(hc) THEN Fail(hc)
+       ELSE IF h.db[u].ex THEN Page(hc, "register")
+       ELSE LET h1 == [hc EXCEPT !.db[u] = [NoUser EXCEPT !.ex = TRUE, !.pw = e.pw]]
             IN  IF Has(c, "confirm")
-                THEN Redirect(StartConfirmation(h1, u), "confirmNotOK")
+                THEN LET h2 == StartConfirmation(h1, u) IN
+                     IF h2.abort # NONE THEN h2 ELSE Redirect(h2, "confirmNotOK")
                 ELSE Redirect(PutS(h1, "uid", u), "registerOK")
 
+\* e.wf: a rejected token is still well formed enough to reach the storage lookup
 ConfirmGet(h, c, e) ==
   IF ~Has(c, "confirm") THEN RouteMissing(h)
-  ELSE IF e.tok <= 0 \/ ~\E u \in Pids : h.db[u].ex /\ h.db[u].cTok = e.tok
-       THEN Redirect(h, "confirmNotOK")
-       ELSE LET u == CHOOSE u \in Pids : h.db[u].ex /\ h.db[u].cTok = e.tok
-            IN  Redirect([h EXCEPT !.db[u].cTok = 0, !.db[u].conf = TRUE], "confirmOK")
+  ELSE IF e.tok <= 0 /\ ~e.wf THEN Redirect(h, "confirmNotOK")
+  ELSE LET hl == Call(h, "LoadByConfirmSelector", "-") IN
+       IF Hit(hl) /\ ~HitNF(hl) THEN Fail(hl)
+       ELSE IF HitNF(hl) \/ e.tok <= 0 \/ ~\E u \in Pids : h.db[u].ex /\ h.db[u].cTok = e.tok
+       THEN Redirect(hl, "confirmNotOK")
+       ELSE LET u  == CHOOSE u \in Pids : h.db[u].ex /\ h.db[u].cTok = e.tok
+                hc == Call(hl, "Save", u)
+            IN  IF Hit(hc) THEN Fail(hc)
+                ELSE Redirect([hc EXCEPT !.db[u].cTok = 0, !.db[u].conf = TRUE], "confirmOK")
 
 RecoverStart(h, c, e) ==
   IF ~Has(c, "recover") THEN RouteMissing(h)
   ELSE IF ~e.valid THEN Page(h, "recoverStart")
-  ELSE IF e.pid \notin Pids \/ ~h.db[e.pid].ex THEN Redirect(h, "recoverOK")
-  ELSE LET u == e.pid
-           t == Fresh(h, "rt")
-           h1 == [Bump(h, "rt") EXCEPT !.db[u].rTok = t, !.db[u].rExp = h.now + c.recoverTTL,
-                                       !.mails = @ \cup {[to |-> {u} \cup Secondary(u), kind |-> "recover", tok |-> t]}]
-       IN  Redirect(h1, "recoverOK")
+  ELSE LET l == LoadPid(h, e.pid) IN
+       IF l.h.abort # NONE THEN l.h
+       ELSE IF ~l.found THEN Redirect(l.h, "recoverOK")
+       ELSE LET u  == e.pid
+                t  == Fresh(h, "rt")
+                hc == Call(l.h, "Save", u)
+            IN  IF Hit(hc) THEN Fail(hc)
+                ELSE LET m == Mail(hc, [to |-> {u} \cup Secondary(u), kind |-> "recover", tok |-> t])
+                         h1 == IF m.sent
+                               THEN [Bump(m.h, "rt") EXCEPT !.db[u].rTok = t, !.db[u].rExp = h.now + c.recoverTTL]
+                               ELSE [m.h EXCEPT !.db[u].rTok = -1, !.db[u].rExp = h.now + c.recoverTTL]
+                     IN  Redirect(h1, "recoverOK")
 
 RecoverEnd(h, c, e) ==
   IF ~Has(c, "recover") THEN RouteMissing(h)
   ELSE IF ~e.valid THEN Page(h, "recoverEnd")
-  ELSE IF e.tok <= 0 \/ ~\E u \in Pids : h.db[u].ex /\ h.db[u].rTok = e.tok
-       THEN Page(h, "recoverEnd")
+  ELSE IF e.tok <= 0 /\ ~e.wf THEN Page(h, "recoverEnd")
+  ELSE LET hl == Call(h, "LoadByRecoverSelector", "-") IN
+       IF Hit(hl) /\ ~HitNF(hl) THEN Fail(hl)
+       ELSE IF HitNF(hl) \/ e.tok <= 0 \/ ~\E u \in Pids : h.db[u].ex /\ h.db[u].rTok = e.tok
+       THEN Page(hl, "recoverEnd")
   ELSE LET u == CHOOSE u \in Pids : h.db[u].ex /\ h.db[u].rTok = e.tok IN
-       IF h.now > h.db[u].rExp THEN Page(h, "recoverEnd")
-       ELSE LET h1 == [h EXCEPT !.db[u].pw = e.pw, !.db[u].rTok = 0, !.db[u].rExp = h.now]
-                \* After(EventRecoverEnd): remember drops the cookie and every token
-                h2 == IF Has(c, "remember")
-                      THEN [h1 EXCEPT !.pc = 0, !.rm = {t \in @ : t.o # u}] ELSE h1
-            IN  IF c.recoverLogin
-                THEN LoginTail(h2, c, u, FALSE, FALSE, "recoverOK")
-                ELSE Redirect(h2, "recoverOK")
+       IF h.now > h.db[u].rExp THEN Page(hl, "recoverEnd")
+       ELSE LET hh == Call(hl, "Hash", "-") IN
+            IF Hit(hh) THEN Fail(hh)
+            ELSE LET hc == Call(hh, "Save", u) IN
+            IF Hit(hc) THEN Fail(hc)
+            ELSE LET h1 == [hc EXCEPT !.db[u].pw = e.pw, !.db[u].rTok = 0, !.db[u].rExp = h.now]
+                     \* After(EventRecoverEnd): remember drops the cookie and every token
+                     hd == Call([h1 EXCEPT !.pc = 0], "DelRememberTokens", u)
+                     h2 == IF ~Has(c, "remember") THEN h1
+                           ELSE IF Hit(hd) THEN Fail(hd)
+                           ELSE [hd EXCEPT !.rm = {t \in @ : t.o # u}]
+                 IN  IF h2.abort # NONE THEN h2
+                     ELSE IF c.recoverLogin
+                     THEN LoginTail(h2, c, u, FALSE, FALSE, "recoverOK")
+                     ELSE Redirect(h2, "recoverOK")
 
 
 -----------------------------------------------------------------------------
@@ -287,48 +393,71 @@ RecoverEnd(h, c, e) ==
 (* probe route                                                               *)
 
 Refuse(h, c) ==
-  Respond(h, CASE c.mwFail = "404" -> "refuse404"
-               [] c.mwFail = "401" -> "refuse401"
-               [] OTHER -> "refuseLogin", NONE)
+  CASE c.mwFail = "404" -> Respond(h, "refuse404", NONE)
+    [] c.mwFail = "401" -> Respond(h, "refuse401", NONE)
+    [] OTHER -> IF ~h.json THEN Respond(h, "refuseLogin", NONE)
+                ELSE LET hc == Call(h, "Render", "-") IN
+                     IF Hit(hc) THEN Abort(hc, "silent") ELSE Respond(hc, "refuseLogin", NONE)
 
-\* [ok, uid]: the wrapped handler runs iff ok
-AuthMW(h, needFull, need2fa) ==
+\* [ok, uid, h]: the wrapped handler runs iff ok; otherwise h already carries the answer.
+\* The user is loaded here and cached in the request context for everything behind
+AuthMW(h, c, needFull, need2fa) ==
   LET uid == CurrentUserID(h) IN
-  IF (needFull /\ h.rs.half) \/ (need2fa /\ h.rs.twofa = NONE) THEN [ok |-> FALSE, uid |-> NONE]
-  ELSE IF uid = NONE \/ uid \notin Pids \/ ~h.db[uid].ex THEN [ok |-> FALSE, uid |-> NONE]
-  ELSE [ok |-> TRUE, uid |-> uid]
+  IF (needFull /\ h.rs.half) \/ (need2fa /\ h.rs.twofa = NONE) THEN [ok |-> FALSE, uid |-> NONE, h |-> Refuse(h, c)]
+  ELSE IF uid = NONE THEN [ok |-> FALSE, uid |-> NONE, h |-> Refuse(h, c)]
+  ELSE LET hc == Call(h, "Load", "-") IN
+       IF Hit(hc) /\ ~HitNF(hc) THEN [ok |-> FALSE, uid |-> NONE, h |-> Abort(hc, "mw500")]
+       ELSE IF HitNF(hc) \/ uid \notin Pids \/ ~h.db[uid].ex THEN [ok |-> FALSE, uid |-> NONE, h |-> Refuse(hc, c)]
+       ELSE [ok |-> TRUE, uid |-> uid, h |-> [hc EXCEPT !.loaded = uid]]
+
+\* who passes the authentication requirement (no effects; used by the property clauses)
+AuthOK(h, needFull, need2fa) ==
+  LET uid == CurrentUserID(h) IN
+  ~((needFull /\ h.rs.half) \/ (need2fa /\ h.rs.twofa = NONE)) /\ uid # NONE /\ uid \in Pids /\ h.db[uid].ex
 
 \* After(EventTwoFactorAdded / Removed): an application handler may answer the request itself
 TfaChanged(h, c, page) == IF c.appHandles2FA THEN Redirect(h, "appTfaChanged") ELSE Page(h, page)
 
 \* twofactor.EmailVerify.Wrap
 EmailWrapBlocks(h, c) == c.emailAuth /\ ~h.rs.tfaAuthed
+EmailWrapRedirect(h, kind) == RedirectVia(h, IF kind = "totp" THEN "totpEmailVerify" ELSE "smsEmailVerify", "silent")
 
 (* otp module *)
 
 OtpLoginPost(h, c, e) ==
   IF ~Has(c, "otp") THEN RouteMissing(h)
-  ELSE IF e.pid \notin Pids \/ ~h.db[e.pid].ex THEN Page(h, "otpLogin")
-  ELSE LET u == e.pid IN
-       IF e.tok <= 0 \/ e.tok \notin h.db[u].otps
-       THEN LET f == AfterAuthFail(h, c, u) IN
-            IF f.handled THEN f.h ELSE Page(f.h, "otpLogin")
-       ELSE LET h1 == [h EXCEPT !.db[u].otps = @ \ {e.tok}]     \* consumed and saved first
-            IN  LoginTail(h1, c, u, e.rm, TRUE, IF e.redir # NONE THEN "redir" ELSE "loginOK")
+  ELSE LET l == LoadPid(h, e.pid) IN
+       IF l.h.abort # NONE THEN l.h
+       ELSE IF ~l.found THEN Page(l.h, "otpLogin")
+       ELSE LET u == e.pid IN
+            IF e.tok <= 0 \/ e.tok \notin h.db[u].otps
+            THEN LET f == AfterAuthFail(l.h, c, u) IN
+                 IF f.handled \/ f.h.abort # NONE THEN f.h ELSE Page(f.h, "otpLogin")
+            ELSE LET hc == Call(l.h, "Save", u) IN       \* consumed and saved first
+                 IF Hit(hc) THEN Fail(hc)
+                 ELSE LoginTail([hc EXCEPT !.db[u].otps = @ \ {e.tok}], c, u, e.rm, TRUE,
+                                IF e.redir # NONE THEN "redir" ELSE "loginOK")
 
+\* a password the page never showed is stored but known to nobody (id -1)
 OtpAdd(h, c, e) ==
   IF ~Has(c, "otp") THEN RouteMissing(h)
-  ELSE LET m == AuthMW(h, FALSE, FALSE) IN
-       IF ~m.ok THEN Refuse(h, c)
-       ELSE IF Cardinality(h.db[m.uid].otps) >= 5 THEN Page(h, "otpAdd")
-       ELSE LET t == Fresh(h, "otp") IN
-            Page([Bump(h, "otp") EXCEPT !.db[m.uid].otps = @ \cup {t}, !.shown = {<<"otp", t>>}], "otpAdd")
+  ELSE LET m == AuthMW(h, c, FALSE, FALSE) IN
+       IF ~m.ok THEN m.h
+       ELSE IF Cardinality(h.db[m.uid].otps) >= 5 THEN Page(m.h, "otpAdd")
+       ELSE LET t  == Fresh(h, "otp")
+                hc == Call(m.h, "Save", m.uid)
+            IN  IF Hit(hc) THEN Fail(hc)
+                ELSE LET hr == Call(hc, "Render", "-") IN
+                     IF Hit(hr) THEN Fail([hr EXCEPT !.db[m.uid].otps = @ \cup {-1}])
+                     ELSE Respond([Bump(hr, "otp") EXCEPT !.db[m.uid].otps = @ \cup {t}, !.shown = {<<"otp", t>>}],
+                                  "page", "otpAdd")
 
 OtpClear(h, c, e) ==
   IF ~Has(c, "otp") THEN RouteMissing(h)
-  ELSE LET m == AuthMW(h, FALSE, FALSE) IN
-       IF ~m.ok THEN Refuse(h, c)
-       ELSE Page([h EXCEPT !.db[m.uid].otps = {}], "otpAdd")
+  ELSE LET m == AuthMW(h, c, FALSE, FALSE) IN
+       IF ~m.ok THEN m.h
+       ELSE LET hc == Call(m.h, "Save", m.uid) IN
+            IF Hit(hc) THEN Fail(hc) ELSE Page([hc EXCEPT !.db[m.uid].otps = {}], "otpAdd")
 
 (* oauth2 module *)
 
@@ -352,33 +481,53 @@ OAuthCallback(h, c, e) ==
        IF e.outcome = "error" THEN Redirect(h1, "oauth2NotOK")
        ELSE IF e.outcome = "exchangeFail" THEN Fail(h1)
        ELSE LET u  == OPid(e.prov, e.outcome)
-                h2 == IF h1.db[u].ex THEN h1
-                      ELSE [h1 EXCEPT !.db[u] = [NoUser EXCEPT !.ex = TRUE, !.conf = TRUE]]
+                hf == Call(h1, "FindUserDetails", "-")
+                hn == Call(hf, "NewFromOAuth2", "-")
+                hs == Call(hn, "SaveOAuth2", u)
+                h2 == IF h1.db[u].ex THEN hs
+                      ELSE [hs EXCEPT !.db[u] = [NoUser EXCEPT !.ex = TRUE, !.conf = TRUE]]
                 a  == IF Has(c, "lock") THEN LockUpdate(h2, c, u, TRUE) ELSE HR(h2, FALSE)
-            IN  IF a.handled THEN a.h
+            IN  IF Hit(hf) THEN Fail(hf) ELSE IF Hit(hn) THEN Fail(hn) ELSE IF Hit(hs) THEN Fail(hs)
+                ELSE IF a.handled \/ a.h.abort # NONE THEN a.h
                 ELSE LET h3 == DelS(PutS(a.h, "uid", u), "half")
                          h4 == IF Has(c, "remember") /\ h.rs.oHas /\ h.rs.oRm THEN RememberAdd(h3, u) ELSE h3
-                     IN  Redirect(h4, IF h.rs.oHas /\ h.rs.oRedir # NONE THEN "redir" ELSE "oauth2OK")
+                     IN  IF h4.abort # NONE THEN h4
+                         ELSE Redirect(h4, IF h.rs.oHas /\ h.rs.oRedir # NONE THEN "redir" ELSE "oauth2OK")
 
 (* two-factor: shared pieces *)
 
-NewRecoveryCodes(h, u) ==
-  LET g == Fresh(h, "rc") IN
-  [Bump(h, "rc") EXCEPT !.db[u].rcg = g, !.db[u].rcLeft = 1..10, !.shown = @ \cup {<<"rc", g>>}]
-
-\* when the application answers After(EventTwoFactorAdded) itself, the page that
-\* would show the fresh codes is never rendered: they are stored but nobody has them
-EnrolRecoveryCodes(h, c, u) ==
-  IF c.appHandles2FA THEN [h EXCEPT !.db[u].rcg = -1, !.db[u].rcLeft = {-1}] ELSE NewRecoveryCodes(h, u)
+\* fresh codes; shown = FALSE: the page that would have shown them was never
+\* produced (an application handler answered, or the renderer failed): stored, known to nobody
+StoreRecoveryCodes(h, u, shown) ==
+  IF shown THEN LET g == Fresh(h, "rc") IN
+                [Bump(h, "rc") EXCEPT !.db[u].rcg = g, !.db[u].rcLeft = 1..10, !.shown = @ \cup {<<"rc", g>>}]
+  ELSE [h EXCEPT !.db[u].rcg = -1, !.db[u].rcLeft = {-1}]
 
 RcMatches(h, u, e) == e.rc >= 1 /\ e.g = h.db[u].rcg /\ e.rc \in h.db[u].rcLeft
 
 \* the user a validate-style handler acts for: the logged-in one, else the pending one
+\* (no effects; used by the property clauses)
 ValidateUser(h, pend) ==
   LET cur == CurrentUserID(h) IN
   IF cur # NONE /\ cur \in Pids /\ h.db[cur].ex THEN cur
   ELSE IF pend # NONE /\ pend \in Pids /\ h.db[pend].ex THEN pend
   ELSE NONE
+
+\* the same with its storage calls: CurrentUser, and when that finds nobody the pending pid
+\* [h, u]
+LoadValidateUser(h, pend) ==
+  LET cur == CurrentUserID(h)
+      tryPend(hx) ==
+        IF pend = NONE THEN [h |-> Fail(hx), u |-> NONE]
+        ELSE LET hp == Call(hx, "Load", "-") IN
+             IF Hit(hp) \/ pend \notin Pids \/ ~h.db[pend].ex THEN [h |-> Fail(hp), u |-> NONE]
+             ELSE [h |-> hp, u |-> pend]
+  IN  IF h.loaded # NONE THEN [h |-> h, u |-> h.loaded]
+      ELSE IF cur = NONE THEN tryPend(h)
+      ELSE LET hc == Call(h, "Load", "-") IN
+           IF Hit(hc) /\ ~HitNF(hc) THEN [h |-> Fail(hc), u |-> NONE]
+           ELSE IF HitNF(hc) \/ cur \notin Pids \/ ~h.db[cur].ex THEN tryPend(hc)
+           ELSE [h |-> hc, u |-> cur]
 
 TotpEnc(e) == IF e.code >= 1 /\ e.tok >= 1 THEN e.tok * 10 + e.code ELSE IF e.code = 0 THEN 0 ELSE -1
 
@@ -387,7 +536,9 @@ TotpCheck(h, c, u, e) ==
   IF h.db[u].totp = 0 THEN [h |-> h, status |-> "notEnabled"]
   ELSE IF e.rc # 0 THEN
          IF RcMatches(h, u, e)
-         THEN [h |-> [h EXCEPT !.db[u].rcLeft = @ \ {e.rc}], status |-> "ok"]   \* saved at once
+         THEN LET hc == Call(h, "Save", u) IN                               \* saved at once
+              IF Hit(hc) THEN [h |-> Fail(hc), status |-> "bad"]
+              ELSE [h |-> [hc EXCEPT !.db[u].rcLeft = @ \ {e.rc}], status |-> "ok"]
          ELSE [h |-> h, status |-> "bad"]
   ELSE LET enc == TotpEnc(e)
            rep == c.totpOneTime /\ enc = h.db[u].totpLast
@@ -398,132 +549,163 @@ TotpCheck(h, c, u, e) ==
            ELSE IF e.code >= 1 /\ e.tok = h.db[u].totp THEN [h |-> hm, status |-> "ok"]
            ELSE [h |-> hm, status |-> "bad"]
 
-SaveLast(h, u) == IF h.pendLast # NEVER THEN [h EXCEPT !.db[u].totpLast = h.pendLast] ELSE h
-
 \* completing the second step of a login
 TwoFALogin(h, c, u, kind, e) ==
   LET a == BeforeAuth(h, c, u) IN
-  IF a.handled THEN a.h
+  IF a.handled \/ a.h.abort # NONE THEN a.h
   ELSE LET h1 == PutS(PutS(a.h, "uid", u), "twofa", kind)
            h2 == DelS(h1, "half")
            h3 == IF kind = "totp" THEN DelS(DelS(h2, "totpPend"), "totpSetup")
                  ELSE DelS(DelS(h2, "smsPend"), "smsCode")
            h4 == AfterAuth(h3, c, u, FALSE)
-       IN  Redirect(h4, IF e.redir # NONE THEN "redir" ELSE "loginOK")
+       IN  IF h4.abort # NONE THEN h4 ELSE Redirect(h4, IF e.redir # NONE THEN "redir" ELSE "loginOK")
 
 (* totp *)
 
 TotpSetup(h, c, e) ==
   IF ~Has(c, "totp") THEN RouteMissing(h)
-  ELSE LET m == AuthMW(h, TRUE, FALSE) IN
-       IF ~m.ok THEN Refuse(h, c)
-       ELSE IF EmailWrapBlocks(h, c) THEN Redirect(h, "totpEmailVerify")
-       ELSE IF e.act = "TotpSetupGet" THEN Page(DelS(h, "totpSetup"), "totpSetup")
-       ELSE LET t == Fresh(h, "ts") IN Redirect(PutS(Bump(h, "ts"), "totpSetup", t), "totpConfirm")
+  ELSE LET m == AuthMW(h, c, TRUE, FALSE) IN
+       IF ~m.ok THEN m.h
+       ELSE IF EmailWrapBlocks(h, c) THEN EmailWrapRedirect(m.h, "totp")
+       ELSE IF e.act = "TotpSetupGet" THEN Page(DelS(m.h, "totpSetup"), "totpSetup")
+       ELSE LET t == Fresh(h, "ts") IN Redirect(PutS(Bump(m.h, "ts"), "totpSetup", t), "totpConfirm")
 
 TotpConfirm(h, c, e) ==
   IF ~Has(c, "totp") THEN RouteMissing(h)
-  ELSE LET m == AuthMW(h, TRUE, FALSE) IN
-       IF ~m.ok THEN Refuse(h, c)
-       ELSE IF EmailWrapBlocks(h, c) THEN Redirect(h, "totpEmailVerify")
-       ELSE IF h.rs.totpSetup = 0 THEN Fail(h)
-       ELSE IF ~(e.code >= 1 /\ e.tok = h.rs.totpSetup) THEN Page(h, "totpConfirm")
+  ELSE LET m == AuthMW(h, c, TRUE, FALSE) IN
+       IF ~m.ok THEN m.h
+       ELSE IF EmailWrapBlocks(h, c) THEN EmailWrapRedirect(m.h, "totp")
+       ELSE IF h.rs.totpSetup = 0 THEN Fail(m.h)
+       ELSE IF ~(e.code >= 1 /\ e.tok = h.rs.totpSetup) THEN Page(m.h, "totpConfirm")
        ELSE LET u  == m.uid
-                h1 == EnrolRecoveryCodes(h, c, u)
-                h2 == [h1 EXCEPT !.db[u].totp = h.rs.totpSetup,
+                hc == Call(m.h, "Save", u)
+                h2 == [hc EXCEPT !.db[u].totp = h.rs.totpSetup,
                                  !.db[u].totpLast = IF c.totpOneTime THEN TotpEnc(e) ELSE @]
-            IN  TfaChanged(DelS(DelS(h2, "totpSetup"), "tfaAuthed"), c, "totpConfirmOK")
+                h3 == DelS(DelS(h2, "totpSetup"), "tfaAuthed")
+                hr == Call(h3, "Render", "-")
+            IN  IF Hit(hc) THEN Fail(hc)
+                ELSE IF c.appHandles2FA THEN Redirect(StoreRecoveryCodes(h3, u, FALSE), "appTfaChanged")
+                ELSE IF Hit(hr) THEN Fail(StoreRecoveryCodes(hr, u, FALSE))
+                ELSE Respond(StoreRecoveryCodes(hr, u, TRUE), "page", "totpConfirmOK")
 
 TotpRemove(h, c, e) ==
   IF ~Has(c, "totp") THEN RouteMissing(h)
-  ELSE LET m == AuthMW(h, TRUE, FALSE) IN
-       IF ~m.ok THEN Refuse(h, c)
+  ELSE LET m == AuthMW(h, c, TRUE, FALSE) IN
+       IF ~m.ok THEN m.h
        ELSE LET u == m.uid
-                v == TotpCheck(h, c, u, e)
-            IN  IF v.status # "ok" THEN Page(v.h, "totpRemove")
-                ELSE TfaChanged([SaveLast(DelS(v.h, "twofa"), u) EXCEPT !.db[u].totp = 0], c, "totpRemoveOK")
+                v == TotpCheck(m.h, c, u, e)
+            IN  IF v.h.abort # NONE THEN v.h
+                ELSE IF v.status # "ok" THEN Page(v.h, "totpRemove")
+                ELSE LET hc == Call(DelS(v.h, "twofa"), "Save", u) IN
+                     IF Hit(hc) THEN Fail(hc)
+                     ELSE TfaChanged([SaveLast(hc, u) EXCEPT !.db[u].totp = 0], c, "totpRemoveOK")
 
 TotpValidate(h, c, e) ==
   IF ~Has(c, "totp") THEN RouteMissing(h)
-  ELSE LET u == ValidateUser(h, h.rs.totpPend) IN
-       IF u = NONE THEN Fail(h)
-       ELSE LET v == TotpCheck(h, c, u, e) IN
-            IF v.status = "notEnabled" THEN Page(v.h, "totpValidate")
+  ELSE LET l == LoadValidateUser(h, h.rs.totpPend)
+           u == l.u
+       IN
+       IF u = NONE THEN l.h
+       ELSE LET v == TotpCheck(l.h, c, u, e) IN
+            IF v.h.abort # NONE THEN v.h
+            ELSE IF v.status = "notEnabled" THEN Page(v.h, "totpValidate")
             ELSE IF v.status = "bad"
-            THEN LET f == AfterAuthFail(v.h, c, u)
-                     \* lock saves the very user object validate() mutated
-                     hf == IF Has(c, "lock") THEN SaveLast(f.h, u) ELSE f.h
-                 IN  IF f.handled THEN hf ELSE Page(hf, "totpValidate")
-            ELSE TwoFALogin(SaveLast(v.h, u), c, u, "totp", e)
+            THEN LET f == AfterAuthFail(v.h, c, u) IN
+                 IF f.handled \/ f.h.abort # NONE THEN f.h ELSE Page(f.h, "totpValidate")
+            ELSE \* with one-time codes the user object (its new last code) is saved first
+                 LET hc == Call(v.h, "Save", u) IN
+                 IF ~c.totpOneTime THEN TwoFALogin(v.h, c, u, "totp", e)
+                 ELSE IF Hit(hc) THEN Fail(hc)
+                 ELSE TwoFALogin(SaveLast(hc, u), c, u, "totp", e)
 
 (* sms *)
 
 SmsSetup(h, c, e) ==
   IF ~Has(c, "sms") THEN RouteMissing(h)
-  ELSE LET m == AuthMW(h, TRUE, FALSE) IN
-       IF ~m.ok THEN Refuse(h, c)
-       ELSE IF EmailWrapBlocks(h, c) THEN Redirect(h, "smsEmailVerify")
-       ELSE IF e.act = "SmsSetupGet" THEN Page(DelS(DelS(h, "smsCode"), "smsNum"), "smsSetup")
-       ELSE IF e.phone <= 0 THEN Page(h, "smsSetup")
-       ELSE LET s == SmsSend(PutS(h, "smsNum", e.phone), e.phone) IN
-            IF s.limited THEN Fail(s.h) ELSE Redirect(s.h, "smsConfirm")
+  ELSE LET m == AuthMW(h, c, TRUE, FALSE) IN
+       IF ~m.ok THEN m.h
+       ELSE IF EmailWrapBlocks(h, c) THEN EmailWrapRedirect(m.h, "sms")
+       ELSE IF e.act = "SmsSetupGet" THEN Page(DelS(DelS(m.h, "smsCode"), "smsNum"), "smsSetup")
+       ELSE IF e.phone <= 0 THEN Page(m.h, "smsSetup")
+       ELSE LET s == SmsSend(PutS(m.h, "smsNum", e.phone), e.phone) IN
+            IF s.limited \/ s.failed THEN Fail(s.h) ELSE Redirect(s.h, "smsConfirm")
 
 \* which: "confirm" | "remove" | "validate"
 SmsPost(h, c, e, which) ==
   IF ~Has(c, "sms") THEN RouteMissing(h)
-  ELSE LET m == IF which = "validate" THEN [ok |-> TRUE, uid |-> NONE] ELSE AuthMW(h, TRUE, FALSE) IN
-       IF ~m.ok THEN Refuse(h, c)
-       ELSE IF which = "confirm" /\ EmailWrapBlocks(h, c) THEN Redirect(h, "smsEmailVerify")
-       ELSE LET u == ValidateUser(h, h.rs.smsPend)
+  ELSE LET m == IF which = "validate" THEN [ok |-> TRUE, uid |-> NONE, h |-> h] ELSE AuthMW(h, c, TRUE, FALSE) IN
+       IF ~m.ok THEN m.h
+       ELSE IF which = "confirm" /\ EmailWrapBlocks(h, c) THEN EmailWrapRedirect(m.h, "sms")
+       ELSE LET l == LoadValidateUser(m.h, h.rs.smsPend)
+                u == l.u
+                h0 == l.h
                 page == CASE which = "confirm" -> "smsConfirm" [] which = "remove" -> "smsRemove" [] OTHER -> "smsValidate"
                 rcGiven == which # "confirm" /\ e.rc # 0
             IN
-            IF u = NONE THEN Fail(h)
+            IF u = NONE THEN h0
             ELSE IF ~rcGiven /\ e.code = 0 THEN
                    \* (re)send a code
                    LET phone == IF which = "confirm" THEN h.rs.smsNum ELSE h.db[u].sms IN
-                   IF phone = 0 THEN Fail(h)
-                   ELSE Page(SmsSend(h, phone).h, page)
-            ELSE IF ~rcGiven /\ h.rs.smsCode = 0 THEN Fail(h)
+                   IF phone = 0 THEN Fail(h0)
+                   ELSE LET s == SmsSend(h0, phone) IN IF s.failed THEN Fail(s.h) ELSE Page(s.h, page)
+            ELSE IF ~rcGiven /\ h.rs.smsCode = 0 THEN Fail(h0)
             ELSE LET target == IF which = "confirm" THEN h.rs.smsNum ELSE h.db[u].sms
                      verified == IF rcGiven THEN RcMatches(h, u, e)
                                  ELSE e.code >= 1 /\ e.code = h.rs.smsCode
                                       /\ <<e.code, target>> \in h.scPhone   \* sent to the factor being proven
-                     h1 == IF rcGiven /\ verified THEN [h EXCEPT !.db[u].rcLeft = @ \ {e.rc}] ELSE h
+                     hrc == Call(h0, "Save", u)
+                     h1 == IF rcGiven /\ verified
+                           THEN (IF Hit(hrc) THEN Fail(hrc) ELSE [hrc EXCEPT !.db[u].rcLeft = @ \ {e.rc}])
+                           ELSE h0
                  IN
-                 IF ~verified
-                 THEN LET f == AfterAuthFail(h1, c, u) IN IF f.handled THEN f.h ELSE Page(f.h, page)
+                 IF h1.abort # NONE THEN h1
+                 ELSE IF ~verified
+                 THEN LET f == AfterAuthFail(h1, c, u) IN
+                      IF f.handled \/ f.h.abort # NONE THEN f.h ELSE Page(f.h, page)
                  ELSE CASE which = "confirm" ->
                              IF h.rs.smsNum = 0 THEN Fail(h1)
-                             ELSE LET h2 == [EnrolRecoveryCodes(h1, c, u) EXCEPT !.db[u].sms = h.rs.smsNum]
-                                  IN  TfaChanged(DelS(DelS(DelS(h2, "tfaAuthed"), "smsCode"), "smsNum"), c, "smsConfirmOK")
+                             ELSE LET hc == Call(h1, "Save", u)
+                                      h2 == [hc EXCEPT !.db[u].sms = h.rs.smsNum]
+                                      h3 == DelS(DelS(DelS(h2, "tfaAuthed"), "smsCode"), "smsNum")
+                                      hr == Call(h3, "Render", "-")
+                                  IN  IF Hit(hc) THEN Fail(hc)
+                                      ELSE IF c.appHandles2FA THEN Redirect(StoreRecoveryCodes(h3, u, FALSE), "appTfaChanged")
+                                      ELSE IF Hit(hr) THEN Fail(StoreRecoveryCodes(hr, u, FALSE))
+                                      ELSE Respond(StoreRecoveryCodes(hr, u, TRUE), "page", "smsConfirmOK")
                         [] which = "remove" ->
-                             TfaChanged(DelS([h1 EXCEPT !.db[u].sms = 0], "twofa"), c, "smsRemoveOK")
+                             LET hc == Call(h1, "Save", u) IN
+                             IF Hit(hc) THEN Fail(hc)
+                             ELSE TfaChanged(DelS([hc EXCEPT !.db[u].sms = 0], "twofa"), c, "smsRemoveOK")
                         [] OTHER -> TwoFALogin(h1, c, u, "sms", e)
 
 (* recovery codes, e-mail verification *)
 
 RecoveryRegen(h, c, e) ==
   IF ~Has(c, "recovery") THEN RouteMissing(h)
-  ELSE LET m == AuthMW(h, TRUE, FALSE) IN
-       IF ~m.ok THEN Refuse(h, c) ELSE Page(NewRecoveryCodes(h, m.uid), "recovery2fa")
+  ELSE LET m == AuthMW(h, c, TRUE, FALSE) IN
+       IF ~m.ok THEN m.h
+       ELSE LET hc == Call(m.h, "Save", m.uid)
+                hr == Call(hc, "Render", "-")
+            IN  IF Hit(hc) THEN Fail(hc)
+                ELSE IF Hit(hr) THEN Fail(StoreRecoveryCodes(hr, m.uid, FALSE))
+                ELSE Respond(StoreRecoveryCodes(hr, m.uid, TRUE), "page", "recovery2fa")
 
 EmailVerifyStart(h, c, e) ==
   IF ~c.emailAuth \/ ~Has(c, e.kind) \/ e.kind \notin {"totp", "sms"} THEN RouteMissing(h)
-  ELSE LET m == AuthMW(h, TRUE, FALSE) IN
-       IF ~m.ok THEN Refuse(h, c)
+  ELSE LET m == AuthMW(h, c, TRUE, FALSE) IN
+       IF ~m.ok THEN m.h
        ELSE LET t == Fresh(h, "tt")
-                h1 == PutS(Bump(h, "tt"), "tfaTok", t)
-            IN  Redirect([h1 EXCEPT !.mails = @ \cup {[to |-> {m.uid}, kind |-> "tfaverify", tok |-> t]}], "tfaEmailNotOK")
+                ml == Mail(m.h, [to |-> {m.uid}, kind |-> "tfaverify", tok |-> t])
+            IN  IF ml.sent THEN Redirect(PutS(Bump(ml.h, "tt"), "tfaTok", t), "tfaEmailNotOK")
+                ELSE Redirect(PutS(ml.h, "tfaTok", -1), "tfaEmailNotOK")
 
 EmailVerifyEnd(h, c, e) ==
   IF ~c.emailAuth \/ ~Has(c, e.kind) \/ e.kind \notin {"totp", "sms"} THEN RouteMissing(h)
-  ELSE LET m == AuthMW(h, TRUE, FALSE) IN
-       IF ~m.ok THEN Refuse(h, c)
-       ELSE IF h.rs.tfaTok = 0 \/ e.tok <= 0 \/ e.tok # h.rs.tfaTok THEN Redirect(h, "tfaEmailNotOK")
-       ELSE Redirect(PutS(DelS(h, "tfaTok"), "tfaAuthed", TRUE), IF e.kind = "totp" THEN "totpSetup" ELSE "smsSetup")
+  ELSE LET m == AuthMW(h, c, TRUE, FALSE) IN
+       IF ~m.ok THEN m.h
+       ELSE IF h.rs.tfaTok = 0 \/ e.tok <= 0 \/ e.tok # h.rs.tfaTok THEN Redirect(m.h, "tfaEmailNotOK")
+       ELSE Redirect(PutS(DelS(m.h, "tfaTok"), "tfaAuthed", TRUE), IF e.kind = "totp" THEN "totpSetup" ELSE "smsSetup")
 
-\* application route behind authboss.Middleware2 -> lock.Middleware -> confirm.Middleware
 \* the GET pages (forms and status pages). e.k names the route; they change nothing by themselves
 \* (the global middlewares in front still act), but each sits behind the same guards as its POST twin
 GetPage(h, c, e) ==
@@ -531,12 +713,11 @@ GetPage(h, c, e) ==
       open(mod, page) == IF Has(c, mod) THEN Page(h, page) ELSE RouteMissing(h)
       guarded(mod, wrapKind, page, needSetup) ==
         IF ~Has(c, mod) THEN RouteMissing(h)
-        ELSE LET m == AuthMW(h, TRUE, FALSE) IN
-             IF ~m.ok THEN Refuse(h, c)
-             ELSE IF wrapKind # NONE /\ EmailWrapBlocks(h, c)
-                  THEN Redirect(h, IF wrapKind = "totp" THEN "totpEmailVerify" ELSE "smsEmailVerify")
-             ELSE IF needSetup /\ h.rs.totpSetup = 0 THEN Fail(h)
-             ELSE Page(h, page)
+        ELSE LET m == AuthMW(h, c, TRUE, FALSE) IN
+             IF ~m.ok THEN m.h
+             ELSE IF wrapKind # NONE /\ EmailWrapBlocks(h, c) THEN EmailWrapRedirect(m.h, wrapKind)
+             ELSE IF needSetup /\ h.rs.totpSetup = 0 THEN Fail(m.h)
+             ELSE Page(m.h, page)
   IN
   CASE k = "login" -> open("auth", "login")
     [] k = "register" -> open("register", "register")
@@ -545,7 +726,7 @@ GetPage(h, c, e) ==
     [] k = "otpLogin" -> open("otp", "otpLogin")
     [] k \in {"otpAdd", "otpClear"} ->
          IF ~Has(c, "otp") THEN RouteMissing(h)
-         ELSE IF ~AuthMW(h, FALSE, FALSE).ok THEN Refuse(h, c) ELSE Page(h, k)
+         ELSE LET m == AuthMW(h, c, FALSE, FALSE) IN IF ~m.ok THEN m.h ELSE Page(m.h, k)
     [] k = "totpConfirm" -> guarded("totp", "totp", "totpConfirm", TRUE)
     [] k = "totpRemove" -> guarded("totp", NONE, "totpRemove", FALSE)
     [] k = "totpValidate" -> open("totp", "totpValidate")
@@ -561,28 +742,32 @@ GetPage(h, c, e) ==
 GetKeys == {"login", "register", "recover", "recoverEnd", "otpLogin", "otpAdd", "otpClear", "totpConfirm", "totpRemove",
             "totpValidate", "smsConfirm", "smsRemove", "smsValidate", "recoveryRegen", "totpEmailVerify", "smsEmailVerify"}
 
+Seen(h, uid) == [Respond(h, "ok", NONE) EXCEPT !.ran = TRUE, !.seenUser = uid,
+                   !.seenKeys = {k \in SessKeys \ {"oRm", "oRedir"} : h.rs[k] # EmptySess[k]}]
+
 \* lock.Middleware -> confirm.Middleware used on their own: they load the session user themselves
-\* and, as documented, panic when there is none to load
+\* and, as documented, panic when there is none to load (or loading fails)
 BareProbe(h, c, e) ==
   LET uid == CurrentUserID(h)
       known == uid # NONE /\ uid \in Pids /\ h.db[uid].ex
-  IN  IF ~Has(c, "lock") /\ ~Has(c, "confirm")
-      THEN [Respond(h, "ok", NONE) EXCEPT !.ran = TRUE, !.seenUser = IF known THEN uid ELSE NONE,
-              !.seenKeys = {k \in SessKeys \ {"oRm", "oRedir"} : h.rs[k] # EmptySess[k]}]
-      ELSE IF ~known THEN Respond(h, "panic", NONE)
-      ELSE IF Has(c, "lock") /\ Locked(h.db[uid], h.now) THEN Redirect(h, "lockNotOK")
-      ELSE IF Has(c, "confirm") /\ ~h.db[uid].conf THEN Redirect(h, "confirmNotOK")
-      ELSE [Respond(h, "ok", NONE) EXCEPT !.ran = TRUE, !.seenUser = uid,
-              !.seenKeys = {k \in SessKeys \ {"oRm", "oRedir"} : h.rs[k] # EmptySess[k]}]
+      hc == Call(h, "Load", "-")
+  IN  \* (unguarded: the application handler looks the user up itself, and sees nobody if that fails)
+      IF ~Has(c, "lock") /\ ~Has(c, "confirm")
+      THEN (IF uid = NONE THEN Seen(h, NONE) ELSE Seen(hc, IF known /\ ~Hit(hc) THEN uid ELSE NONE))
+      ELSE IF uid = NONE THEN Abort(h, "panic")
+      ELSE IF Hit(hc) \/ ~known THEN Abort(hc, "panic")
+      ELSE IF Has(c, "lock") /\ Locked(h.db[uid], h.now) THEN RedirectVia(hc, "lockNotOK", "silent")
+      ELSE IF Has(c, "confirm") /\ ~h.db[uid].conf THEN RedirectVia(hc, "confirmNotOK", "silent")
+      ELSE Seen(hc, uid)
 
+\* application route behind authboss.Middleware2 -> lock.Middleware -> confirm.Middleware
 Probe(h, c, e) ==
   IF e.k = "bare" THEN BareProbe(h, c, e) ELSE
-  LET m == AuthMW(h, c.mwReqs \in {1, 3}, c.mwReqs \in {2, 3}) IN
-  IF ~m.ok THEN Refuse(h, c)
-  ELSE IF Has(c, "lock") /\ Locked(h.db[m.uid], h.now) THEN Redirect(h, "lockNotOK")
-  ELSE IF Has(c, "confirm") /\ ~h.db[m.uid].conf THEN Redirect(h, "confirmNotOK")
-  ELSE [Respond(h, "ok", NONE) EXCEPT !.ran = TRUE, !.seenUser = m.uid,
-          !.seenKeys = {k \in SessKeys \ {"oRm", "oRedir"} : h.rs[k] # EmptySess[k]}]
+  LET m == AuthMW(h, c, c.mwReqs \in {1, 3}, c.mwReqs \in {2, 3}) IN
+  IF ~m.ok THEN m.h
+  ELSE IF Has(c, "lock") /\ Locked(h.db[m.uid], h.now) THEN RedirectVia(m.h, "lockNotOK", "silent")
+  ELSE IF Has(c, "confirm") /\ ~h.db[m.uid].conf THEN RedirectVia(m.h, "confirmNotOK", "silent")
+  ELSE Seen(m.h, m.uid)
 
 Dispatch(h, c, e) ==
   CASE e.act = "LoginPost"    -> LoginPost(h, c, e)
@@ -617,26 +802,30 @@ RequestActs == {"LoginPost", "Logout", "RegisterPost", "ConfirmGet", "RecoverSta
                 "SmsValidate", "RecoveryRegen", "EmailVerifyStart", "EmailVerifyEnd", "Get"}
 
 \* global middleware chain in front of every route
-Prelude(S, c, b) ==
-  LET h0 == Ctx0(S, b)
+Prelude(S, c, e) ==
+  LET h0 == Ctx0(S, c, e)
       h1 == IF Has(c, "remember") /\ h0.rs.uid = NONE THEN RememberAuth(h0) ELSE h0
       h2 == IF Has(c, "expire") THEN ExpireMW(h1, c) ELSE h1
   IN  h2
 
 Request(S, c, e) ==
-  LET h  == Dispatch(Prelude(S, c, e.b), c, e)
+  LET h  == Final(Dispatch(Prelude(S, c, e), c, e))
       \* a handler error: the shipped error handler only logs (nothing is
-      \* flushed, implicit empty 200); the alternative writes a 500.
-      hf == IF h.err /\ h.class = "none"
-            THEN [h EXCEPT !.class = IF c.errWrites THEN "error500" ELSE "errorSilent"]
-            ELSE h
-      flush == hf.class \notin {"errorSilent", "panic"}
-  IN  [st |-> [S EXCEPT !.db = hf.db, !.rm = hf.rm, !.iss = hf.iss, !.scPhone = hf.scPhone,
-                        !.sess[e.b] = IF flush THEN hf.ps ELSE @,
-                        !.cookie[e.b] = IF flush THEN hf.pc ELSE @],
-       resp |-> [class |-> hf.class, loc |-> hf.loc, ran |-> hf.ran,
-                 seenUser |-> hf.seenUser, seenKeys |-> hf.seenKeys,
-                 mails |-> hf.mails, sms |-> hf.sms, shown |-> hf.shown, leaks |-> {}, calls |-> <<>>]]
+      \* flushed, implicit empty 200); the alternative writes a 500.  A request
+      \* that ends without anything written is "errorSilent" too.
+      cls == IF h.class # "none" THEN h.class
+             ELSE CASE h.abort = "panic" -> "panic"
+                    [] h.abort = "mw500" -> "error500"
+                    [] h.abort = "err" /\ c.errWrites -> "error500"
+                    [] OTHER -> "errorSilent"
+      flush == cls \notin {"errorSilent", "panic"}
+  IN  [st |-> [S EXCEPT !.db = h.db, !.rm = h.rm, !.iss = h.iss, !.scPhone = h.scPhone,
+                        !.sess[e.b] = IF flush THEN h.ps ELSE @,
+                        !.cookie[e.b] = IF flush THEN h.pc ELSE @],
+       resp |-> [class |-> cls, loc |-> h.loc, ran |-> h.ran,
+                 seenUser |-> h.seenUser, seenKeys |-> h.seenKeys,
+                 mails |-> h.mails, sms |-> h.sms, shown |-> h.shown, leaks |-> {}, calls |-> h.calls,
+                 faultHit |-> h.fat >= 1 /\ Len(h.calls) >= h.fat]]
 
 -----------------------------------------------------------------------------
 (* Environment events *)
@@ -655,7 +844,7 @@ Env(S, c, e) ==
            [S EXCEPT !.db[e.pid].pw = e.pw, !.rm = {t \in @ : t.o # e.pid}]
       [] e.act = "StealCookie" -> [S EXCEPT !.cookie[e.k] = S.cookie[e.b]]
       [] e.act = "DropSession" -> [S EXCEPT !.sess[e.b] = EmptySess]
-      [] e.act = "JunkCookie" -> [S EXCEPT !.cookie[e.b] = -1]
+      [] e.act = "JunkCookie" -> [S EXCEPT !.cookie[e.b] = IF e.wf THEN -2 ELSE -1]
       [] e.act = "AppKey" -> [S EXCEPT !.sess[e.b][e.k] = TRUE]
   IN [st |-> S1,
       resp |-> [R0 EXCEPT !.mails = IF e.act = "RestartConfirm" /\ S.db[e.pid].ex
@@ -676,8 +865,11 @@ Live(S) ==
                \cup (IF S.sess[b].oState >= 1 THEN {<<"os", S.sess[b].oState>>} ELSE {})
                \cup (IF S.sess[b].tfaTok >= 1 THEN {<<"tt", S.sess[b].tfaTok>>} ELSE {}) : b \in Browsers }
 
+\* (negative ids stand for stored secrets nobody was ever shown; they are not individuals)
+Known(X) == {x \in X : x[2] >= 1}
+
 Apply(S, c, e) ==
   LET r == IF e.act \in EnvActs THEN Env(S, c, e) ELSE Request(S, c, e)
-  IN  [r EXCEPT !.st.spent = S.spent \cup (Live(S) \ Live(r.st))]
+  IN  [r EXCEPT !.st.spent = S.spent \cup Known(Live(S) \ Live(r.st))]
 
 =============================================================================
